@@ -3,7 +3,7 @@ from __future__ import annotations
 import copy
 from autobean_refactor import models
 from autobean_refactor.models import base, internal
-import intro, edits, docs, treedump
+import intro, edits, docs, treedump, session
 
 ID = 'C20'
 PROPERTY_FILE = 'Autobean/Properties/C20.lean'
@@ -452,14 +452,28 @@ def run(ctx, ndocs=None, lockstep=True):
     for _ in range(ndocs):
         text = r.choice(corpus) if corpus and r.random() < 0.3 else docs.gen_file(r, r.choice((1, 2, 3, 5)))
         auto = r.random() < 0.65
+        # a third of the documents live in stores cut into small blocks (and their copies in stores cut differently):
+        # equality and hashing are about content, never about where a block boundary falls
+        lf = r.choice((3, 4, 6, 10)) if r.random() < 0.35 else None
+        session.set_lf(lf)
+        try:
+            _one_doc(ctx, r, judge, text, auto, lf, per_doc, lockstep)
+        finally:
+            session.set_lf(None)
+    judge.flush()
+
+
+def _one_doc(ctx, r, judge, text, auto, lf, per_doc, lockstep):
+    if True:
         try:
             a = parse(text, auto)
             b0 = parse(text, auto)
         except Exception:   # noqa: BLE001
             ctx.count('doc:rejected')
-            continue
+            return
         ctx.count('doc:accepted')
-        base_replay = {'text': text, 'auto_claim': auto, 'site': None}
+        ctx.count('regime:small-blocks' if lf else 'regime:default-blocks')
+        base_replay = {'text': text, 'auto_claim': auto, 'site': None, 'lf': lf}
         da = treedump.Dump(a) if lockstep else None
         db0 = treedump.Dump(b0) if lockstep else None
         # parsed twice: root and sub-models at the same path
@@ -471,6 +485,9 @@ def run(ctx, ndocs=None, lockstep=True):
         # copy vs original
         c = copy.deepcopy(a)
         judge.pair('copy', a, c, base_replay, expect=True, dumps=(da, treedump.Dump(c)) if lockstep else None)
+        for p, x in (r.sample(subs, 5) if len(subs) > 5 else subs):
+            if not isinstance(x, internal.Repeated):
+                judge.pair('copy', x, copy.deepcopy(x), {**base_replay, 'path': list(p), 'copy_sub': True}, expect=True, lock=False)
         # tokens
         judge_tokens(ctx, a, base_replay)
         judge_text_variants(ctx, text, auto, a)
@@ -499,7 +516,6 @@ def run(ctx, ndocs=None, lockstep=True):
         judge_hash_after_edit(ctx, parse(text, auto), base_replay)
         if len(judge.lines) > 1500:
             judge.flush()
-    judge.flush()
 
 
 def search(ctx, hints):
@@ -512,6 +528,14 @@ def replay(ctx, data):
         return False
     before = len(ctx.oracle_fails)
     text, auto = rep['text'], rep['auto_claim']
+    session.set_lf(rep.get('lf'))
+    try:
+        return _replay(ctx, rep, text, auto, before)
+    finally:
+        session.set_lf(None)
+
+
+def _replay(ctx, rep, text, auto, before):
     a, b0 = parse(text, auto), parse(text, auto)
     judge = Judge(ctx, False)
     site = rep.get('site')
@@ -522,6 +546,7 @@ def replay(ctx, data):
             p = rep.get('path', [])
             judge.pair('parse-twice', by_path(a, p), by_path(b0, p), rep, expect=True)
             judge.pair('copy', a, copy.deepcopy(a), rep, expect=True)
+            judge.pair('copy', by_path(a, p), copy.deepcopy(by_path(a, p)), rep, expect=True)
             judge_tokens(ctx, a, rep)
     else:
         one_site(ctx, judge, text, auto, a, None, b0, site, lock=False)
